@@ -473,6 +473,11 @@ def run(ck, F):
     from rules import c04 as C04
     from rules import c10 as C10
     C10.rule_component_read_out_of_turn(C04._Sub(ck, "R3", lambda key: key.startswith("out-of-turn") or "floor" in key), F, rule="R6")
+    # .. and the prefix a member's type was written with means what the document that wrote it declares: no document starts from, or is
+    # handed, the prefix bindings of another (decided under C09.R2, kept here: a `tns:` resolved in the importer's namespace puts the
+    # member, and its children, into the wrong namespace on the wire)
+    from rules import c09 as C09
+    C09.rule_prefix_table_writers(C04._Sub(ck, "R3", lambda key: True), F, rule="R3")
 
 
 def _gname(g):
